@@ -694,9 +694,15 @@ def gen_schema(rng, ctx, deps_to_use: list, union: bool, deprecated_here: bool) 
         elif k == "print":
             r = rng.random()
             if ctx.get("multiline") and rng.random() < 0.5:
-                # a string literal may contain a raw line break (the grammar admits it): one statement on two physical lines
-                ln = mk_line(T("@print", "r", "'a\nb'"), ["dir", "print", ["o"], "'a\\nb'"])
-                ln["nl"] = 1
+                if rng.random() < 0.5:
+                    # a string literal may contain a raw line break (the grammar admits it): one statement on two physical lines
+                    ln = mk_line(T("@print", "r", "'a\nb'"), ["dir", "print", ["o"], "'a\\nb'"])
+                    ln["nl"] = 1
+                else:
+                    # ... or an ESCAPED line feed, which is not a line break of the text
+                    esc = rng.choice(["'a\\nb'", "'\\n\\n'", '"x\\u000ay"'])
+                    shown = {"'a\\nb'": "'a\\nb'", "'\\n\\n'": "'\\n\\n'", '"x\\u000ay"': "'x\\ny'"}[esc]
+                    ln = mk_line(T("@print", "r", esc), ["dir", "print", ["o"], shown])
                 lines.append(ln)
             elif r < 0.12:
                 lines.append(mk_line(T("@print"), ["dir", "print", None, ""]))
@@ -788,7 +794,7 @@ def gen_namespace(rng, max_defs: int = 4, prop: str = "C03") -> dict:
         deprecated.append(all(deprecated[r] for r in referrers[i]) and rng.random() < (0.5 if referrers[i] else 0.2))
     bits: typing.Dict[int, int] = {}
     density = rng.choice([0.0, 0.3, 0.6, 0.9])
-    multiline = prop == "C17" and rng.random() < 0.06
+    multiline = prop == "C17" and rng.random() < 0.12
     for i in reversed(range(n)):
         ctx = {"defs": defs, "me": i, "bits": bits, "consts": {}, "multiline": multiline}
         deps = list(edges[i])
